@@ -161,6 +161,60 @@ def relation_from_kept(kept_later_minus_earlier):
     return table.get(s, f'?{sorted(s)}')
 
 
+def _dispatch_table(ctx, fn):
+    """`g = TABLE.get(<constraint>.type)` / `TABLE[<constraint>.type]` followed by `g(args)`, TABLE a module-level dict
+    from ChoiceConstraintType members to module functions.  Returns {'bodies': member -> statements of the registered
+    function with the call's arguments substituted for its parameters, 'raises_on_missing': bool} or None."""
+    import copy
+    mod = fn.module
+    tables = {}
+    for st in mod.tree.body:
+        tgt, val = None, None
+        if isinstance(st, ast.Assign) and len(st.targets) == 1 and isinstance(st.targets[0], ast.Name):
+            tgt, val = st.targets[0].id, st.value
+        elif isinstance(st, ast.AnnAssign) and isinstance(st.target, ast.Name):
+            tgt, val = st.target.id, st.value
+        if tgt and isinstance(val, ast.Dict) and val.keys and all(
+                k is not None and enum_member(k, 'ChoiceConstraintType') for k in val.keys) and \
+                all(isinstance(v, ast.Name) and v.id in mod.functions for v in val.values):
+            tables[tgt] = {enum_member(k, 'ChoiceConstraintType'): mod.functions[v.id]
+                           for k, v in zip(val.keys, val.values)}
+    if not tables:
+        return None
+    looked = {}     # local name -> table
+    for a in walk_fn(fn):
+        if isinstance(a, ast.Assign) and isinstance(a.targets[0], ast.Name):
+            v = a.value
+            if isinstance(v, ast.Call) and isinstance(v.func, ast.Attribute) and v.func.attr == 'get' and \
+                    isinstance(v.func.value, ast.Name) and v.func.value.id in tables and v.args and \
+                    norm(v.args[0]).endswith('.type'):
+                looked[a.targets[0].id] = (tables[v.func.value.id], 'get')
+            if isinstance(v, ast.Subscript) and isinstance(v.value, ast.Name) and v.value.id in tables and \
+                    norm(v.slice).endswith('.type'):
+                looked[a.targets[0].id] = (tables[v.value.id], 'index')
+    for c in walk_fn(fn):
+        if isinstance(c, ast.Call) and isinstance(c.func, ast.Name) and c.func.id in looked:
+            tab, how = looked[c.func.id]
+            bodies = {}
+            for m, h in tab.items():
+                ctx.touch(h)
+                sub = dict(zip(h.params, c.args))
+                sub.update({k.arg: k.value for k in c.keywords if k.arg})
+
+                class S(ast.NodeTransformer):
+                    def visit_Name(self, node):
+                        return copy.deepcopy(sub[node.id]) if node.id in sub and isinstance(node.ctx, ast.Load) \
+                            else node
+                bodies[m] = [S().visit(copy.deepcopy(x)) for x in h.node.body
+                             if not (isinstance(x, ast.Expr) and isinstance(x.value, ast.Constant))]
+            # a missing entry: `.get` returns None and the function raises under `<g> is None`; `[...]` raises KeyError
+            raises = how == 'index' or any(
+                isinstance(i_, ast.If) and none_test(i_.test) == ('is_none', c.func.id) and
+                any(isinstance(x, ast.Raise) for x in i_.body) for i_ in walk_fn(fn))
+            return {'bodies': bodies, 'raises_on_missing': raises}
+    return None
+
+
 def removal_relations(ctx):
     """member -> relation(earlier, later) kept by get_constraint_removed_options."""
     fn = ctx.fn(f'{CCON}:get_constraint_removed_options')
@@ -186,11 +240,25 @@ def removal_relations(ctx):
                 kname = next((q for q, v in inv.items() if v == kname), kname)
                 cname = next((q for q, v in inv.items() if v == cname), cname)
             break
+    table = None
     if region is None:
+        table = _dispatch_table(ctx, fn)
+    if region is None and table is None:
         raise AnalysisError('get_constraint_removed_options: dispatch chain not found')
     out = {}
     for m in cct_members(ctx.prog):
-        body = _select(region, m, {})
+        if table is not None:
+            # dictionary dispatch: the body of the function registered for the member, with the call's arguments
+            # substituted for its parameters; a member without an entry must end in the raise that follows the look-up
+            body = table['bodies'].get(m)
+            if body is None:
+                if not table['raises_on_missing']:
+                    raise AnalysisError(f'get_constraint_removed_options: no entry for {m} and no raise for a missing '
+                                        f'entry')
+                out[m] = 'raise'
+                continue
+        else:
+            body = _select(region, m, {})
         if any(isinstance(s, ast.Raise) for s in body):
             out[m] = 'raise'
             continue
